@@ -16,6 +16,7 @@ C7  `a > b` / `a >= b`           ->  `b < a` / `b <= a`
 C8  `x: T = v`                   ->  `x = v`                     (annotated assignment with a value; name or attribute target)
 C9  `for x in (A, B): S(x)`      ->  `S(A); S(B)`                (display of <= 8 plain / dotted names; body neither re-binds x nor breaks / continues)
 C10 `a, b = x, y`                ->  `a = x; b = y`              (plain name targets, none of which occurs in x, y)
+C11 `MappingProxyType({..})`     ->  `{..}` ;  `frozenset({..})` / `frozenset([..])` -> `{..}`
 """
 from __future__ import annotations
 
@@ -53,6 +54,18 @@ class _Canon(ast.NodeTransformer):
             if len(names) == len(node.targets[0].elts) and not any(isinstance(x, ast.Name) and x.id in names for v in node.value.elts for x in ast.walk(v)) \
                     and not any(isinstance(v, ast.Starred) for v in node.value.elts):
                 return [ast.copy_location(ast.Assign(targets=[t], value=v, type_comment=None), node) for t, v in zip(node.targets[0].elts, node.value.elts)]
+        return node
+
+    def visit_Call(self, node):
+        # C11  `MappingProxyType({..})` -> `{..}` ; `frozenset({..})` / `frozenset([..])` -> `{..}`   (a read-only view / an
+        # immutable copy of a display reads exactly like the display; nothing in the analysed code can write to either)
+        self.generic_visit(node)
+        fn = node.func
+        name = fn.attr if isinstance(fn, ast.Attribute) else fn.id if isinstance(fn, ast.Name) else None
+        if name == "MappingProxyType" and len(node.args) == 1 and not node.keywords and isinstance(node.args[0], ast.Dict):
+            return ast.copy_location(node.args[0], node)
+        if name == "frozenset" and isinstance(fn, ast.Name) and len(node.args) == 1 and not node.keywords and isinstance(node.args[0], (ast.Set, ast.List, ast.Tuple)) and node.args[0].elts:
+            return ast.copy_location(ast.Set(elts=node.args[0].elts), node)
         return node
 
     def visit_For(self, node):
